@@ -219,8 +219,9 @@ def run_case(case, ctx):
     # ---- constructor: positional + keyword == default + setattr
     npos = min(case["npos"], nfields)
     vals = [getattr(a, f._name) for f in lf]
-    if npos == 1 and isinstance(vals[0], (bytes, bytearray, memoryview)):
-        # T(<bytes>) is the documented "parse this buffer" overload, not positional construction
+    if npos == 1 and (isinstance(vals[0], (bytes, bytearray, memoryview)) or hasattr(vals[0], "read")):
+        # T(<bytes>) / T(<object with .read>) is the documented "parse this" overload, not positional construction
+        # (a nested structure value with a field called `read` duck-types as a stream)
         npos = 0
         ctx.count("ctor:single-bytes-positional-is-parse(excluded)")
     kw = {lf[i]._name: vals[i] for i in range(npos, nfields) if (case["kwmask"] >> i) & 1}
